@@ -18,7 +18,7 @@ Record Sim (c : cfg) (st : state) (ss : sstate) : Prop := {
   sim_world : forall s a, s_world st s a = p_world ss s a;
   sim_keys : forall k, In k (s_cbs st) -> In (snd (fst k)) funs /\ In (snd k) states;
   sim_clock : p_clock_ok ss = true -> 0 < s_step st /\ 0 <= s_clk st;
-  sim_sum : forall i, is_last (kind_of c i) = false -> p_multi ss i = false -> p_skip ss i = false ->
+  sim_sum : forall i, is_last (kind_of c i) = false -> p_skip ss i = false ->
             SumInv c (s_stor st i) (p_latest ss i) (p_base ss i) (p_touched ss i);
   sim_last : forall i, is_last (kind_of c i) = true -> p_clock_ok ss = true ->
             LastInv c (s_clk st) (s_stor st i) (p_latest ss i) (p_touched ss i)
@@ -34,8 +34,9 @@ Qed.
 
 Lemma LastInv_time' : forall c T T' S lat tch, T <= T' -> LastInv c T S lat tch -> LastInv c T' S lat tch.
 Proof.
-  intros c T T' S lat tch Hle [H1 H2 H3 H4]. constructor; try assumption.
+  intros c T T' S lat tch Hle [H1 H1d H2 H3 H4]. constructor; try assumption.
   - intros a x H. specialize (H1 a x H). lia.
+  - intros a x H. specialize (H1d a x H). lia.
   - intros r Hr a Hin. destruct (H4 r Hr a Hin) as (Ha & Hb & Hc). repeat split; try assumption. now apply (bounded_weaken T).
 Qed.
 
@@ -93,7 +94,7 @@ Proof.
     unfold sreport.
     constructor; cbn [s_cbs p_regs s_dead p_dead s_world p_world s_stor s_clk s_step p_latest p_base p_touched p_multi p_skip p_clock_ok]; try assumption.
     + intros Hcok. specialize (Hc Hcok). lia.
-    + intros j Hkj Hm Hsk. assert (Hji : j <> i) by (intros ->; congruence).
+    + intros j Hkj Hsk. assert (Hji : j <> i) by (intros ->; congruence).
       rewrite !upd_other in * by exact Hji. now apply Hs.
     + intros j Hkj Hcok. destruct (Hc Hcok) as [Hstep HT]. destruct (Nat.eq_dec j i) as [->|Hji].
       * rewrite !upd_same. apply (last_record c i Hki); try assumption. now apply Hl.
@@ -130,8 +131,6 @@ Qed.
 Lemma combine_seq_map : forall A (f : nat -> A) n s, combine (seq s n) (map f (seq s n)) = map (fun i => (i, f i)) (seq s n).
 Proof. intros A f n. induction n as [|n IH]; intros s; cbn [seq map combine]; [reflexivity|]. now rewrite IH. Qed.
 
-Definition no_f27 (c : cfg) (ss : sstate) : Prop := forall i, is_last (kind_of c i) = false -> p_multi ss i = false.
-
 Lemma expected_sum : forall c ss i r a, is_last (kind_of c i) = false ->
   expected c ss i r a = exp_sum c i r (p_latest ss i) (p_base ss i) (p_touched ss i) a.
 Proof.
@@ -155,9 +154,9 @@ Definition pts_ok (c : cfg) (ss1 : sstate) (r i : nat) (t : option amap) : Prop 
   | None => forall a, In a attrs -> expected c ss1 i r a = None
   | Some m => forall a, In a attrs -> option_map (point_of (kind_of c i)) (m a) = expected c ss1 i r a
   end.
-(* the instrument is inside the property's domain and outside the region of finding F27 *)
+(* the instrument is inside the property's domain: no negative total on a monotonic counter, an increasing clock for gauges *)
 Definition dom (c : cfg) (ss1 : sstate) (i : nat) : Prop :=
-  p_skip ss1 i = false /\ if is_last (kind_of c i) then p_clock_ok ss1 = true else p_multi ss1 i = false.
+  p_skip ss1 i = false /\ (is_last (kind_of c i) = true -> p_clock_ok ss1 = true).
 
 Theorem sim_collect_gen : forall c st ss r,
   Sim c st ss -> (r < nreaders c)%nat ->
@@ -178,17 +177,18 @@ Proof.
   assert (Hrep : forall i, reports (p_regs ss) (p_world ss) i = reports (s_cbs st) (s_world st) i).
   { intros i. rewrite <- Hrg. apply reports_ext. intros s a. now rewrite Hw. }
   (* per instrument: the storage after the collection, and the points handed out *)
-  assert (Hsum : forall i, is_last (kind_of c i) = false -> p_multi ss1 i = false -> p_skip ss1 i = false ->
+  assert (Hsum : forall i, is_last (kind_of c i) = false -> p_skip ss1 i = false ->
             SumInv c (fst (coll i)) (p_latest (sgiven ss1 r) i) (p_base (sgiven ss1 r) i) (p_touched (sgiven ss1 r) i) /\
             match snd (coll i) with
             | None => forall a, In a attrs -> expected c ss1 i r a = None
             | Some m => forall a, In a attrs -> option_map (point_of (kind_of c i)) (m a) = expected c ss1 i r a
             end).
-  { intros i Hki Hm Hsk. unfold ss1, sobserve in Hm, Hsk. cbn [p_multi p_skip] in Hm, Hsk.
-    apply orb_false_elim in Hm as [Hm1 Hm2]. apply orb_false_elim in Hsk as [Hsk1 Hsk2]. rewrite Hrep in Hm2, Hsk2.
+  { intros i Hki Hsk. unfold ss1, sobserve in Hsk. cbn [p_skip] in Hsk.
+    apply orb_false_elim in Hsk as [Hsk1 Hsk2]. rewrite Hrep in Hsk2.
     assert (Hpos : forall a v, In (a, v) (reports (s_cbs st) (s_world st) i) -> 0 <= v \/ is_mono (kind_of c i) = false).
     { intros a v Hin. destruct (is_mono (kind_of c i)); [left|now right]. cbn [andb] in Hsk2. now apply (existsb_neg_false _ Hsk2 a v). }
-    pose proof (sum_collect c i Hki (s_world st) (s_step st) (s_cbs st) (s_clk st) (s_stor st i) _ _ _ r (Hs i Hki Hm1 Hsk1) Hr Hm2 Hpos) as HC.
+    assert (Hcd : forall b, st_cum (s_stor st i) b = None -> st_delta (s_stor st i) b = None) by (apply (si_cd _ _ _ _ _ (Hs i Hki Hsk1))).
+    pose proof (sum_collect c i Hki (s_world st) (s_step st) (s_cbs st) (s_clk st) (s_stor st i) _ _ _ r (Hs i Hki Hsk1) Hr Hpos Hcd) as HC.
     cbn zeta in HC. rewrite <- Hstor in HC. fold (coll i) in HC. destruct HC as [HI HO]. split.
     - unfold ss1, sobserve, sgiven. cbn [p_latest p_base p_touched]. rewrite Hrep. exact HI.
     - destruct (snd (coll i)) as [m|]; intros a Hin; rewrite (expected_sum c ss1 i r a Hki); unfold ss1, sobserve; cbn [p_latest p_base p_touched];
@@ -212,7 +212,7 @@ Proof.
     constructor; cbn [s_cbs p_regs s_dead p_dead s_world p_world s_stor s_clk s_step p_latest p_base p_touched p_multi p_skip p_clock_ok sgiven sobserve];
       try assumption.
     + intros Hcok. destruct (Hc Hcok) as [Hstep HT]. split; [exact Hstep|]. rewrite Hclk. nia.
-    + intros i Hki Hm Hsk. now apply (Hsum i Hki).
+    + intros i Hki Hsk. now apply (Hsum i Hki).
     + intros i Hki Hcok. now apply (Hlast i Hki).
   - cbn [co_inv co_tabs]. split; [reflexivity|]. split; [now rewrite map_length, seq_length|].
     intros i Hi [Hsk Hdom].
@@ -221,7 +221,7 @@ Proof.
       rewrite (map_nth (fun i0 => snd (coll i0))). now rewrite seq_nth. }
     change (pts_ok c ss1 r i (nth i (map (fun i0 => snd (coll i0)) (List.seq 0 (ninstr c))) None)).
     rewrite Hnth. unfold pts_ok. fold ss1 in Hsk, Hdom. destruct (is_last (kind_of c i)) eqn:Eki.
-    + now apply (Hlast i Eki).
+    + now apply (Hlast i Eki (Hdom eq_refl)).
     + now apply (Hsum i Eki).
 Qed.
 
@@ -242,12 +242,12 @@ Proof.
 Qed.
 
 Theorem sim_collect : forall c st ss r,
-  Sim c st ss -> (r < nreaders c)%nat -> no_f27 c (sobserve c ss) ->
+  Sim c st ss -> (r < nreaders c)%nat ->
   exists o, snd (step c st (OCollect r)) = Some o /\
             Sim c (fst (step c st (OCollect r))) (sstep c ss (OCollect r)) /\
             check_collect c ss r (print_cobs c r o) = [].
 Proof.
-  intros c st ss r H Hr Hno. destruct (sim_collect_gen c st ss r H Hr) as (o & Ho & HS & Hinv & Hlen & Hpts).
+  intros c st ss r H Hr. destruct (sim_collect_gen c st ss r H Hr) as (o & Ho & HS & Hinv & Hlen & Hpts).
   exists o. split; [exact Ho|]. split; [exact HS|].
   set (ss1 := sobserve c ss) in *.
   unfold check_collect, print_cobs. cbn [cp_inv cp_instr]. fold ss1.
@@ -274,62 +274,43 @@ Proof.
     - rewrite points_of_nil by exact Ht. reflexivity. }
   destruct (is_last (kind_of c i)) eqn:Eki.
   - destruct (p_clock_ok ss1) eqn:Eok; cbn [negb andb]; [|reflexivity].
-    apply Hfin. rewrite <- Hnth. apply Hpts; [exact Hi|]. unfold dom. rewrite Eki. now split.
-  - cbn [andb]. apply Hfin. rewrite <- Hnth. apply Hpts; [exact Hi|]. unfold dom. rewrite Eki. split; [exact Esk|]. now apply Hno.
+    apply Hfin. rewrite <- Hnth. apply Hpts; [exact Hi|]. unfold dom. now split.
+  - cbn [andb]. apply Hfin. rewrite <- Hnth. apply Hpts; [exact Hi|]. unfold dom. split; [exact Esk|intros Hf; rewrite Eki in Hf; discriminate].
 Qed.
 
 (* ------------------------------------------------------------------ whole histories *)
-Lemma multi_sticky_step : forall c ss o i, p_multi ss i = true -> p_multi (sstep c ss o) i = true.
-Proof.
-  intros c ss o i H. destruct o; cbn [sstep].
-  - destruct (susable c ss i0 true); exact H.
-  - destruct (susable c ss i0 true); exact H.
-  - exact H.
-  - exact H.
-  - exact H.
-  - destruct (susable c ss i0 false); [|exact H]. cbn [sreport p_multi]. unfold upd.
-    destruct (Nat.eqb i i0) eqn:E; [|exact H]. apply Nat.eqb_eq in E. subst i0. now rewrite H.
-  - destruct (c_scripted c); exact H.
-  - cbn [sgiven sobserve p_multi]. now rewrite H.
-Qed.
-Lemma multi_sticky : forall c ops ss i, p_multi ss i = true -> p_multi (fold_left (sstep c) ops ss) i = true.
-Proof. intros c ops. induction ops as [|o ops IH]; intros ss i H; cbn [fold_left]; [exact H|]. apply IH. now apply multi_sticky_step. Qed.
-
 Definition run_print_from (c : cfg) (st : state) (ops : list op) : list cprint :=
   map (fun ro => print_cobs c (fst ro) (snd ro)) (combine (collects_of ops) (snd (run_from c st ops))).
 
 Lemma spec_from_ok : forall c ops st ss,
-  Sim c st ss -> Forall (op_ok c) ops -> no_f27 c (fold_left (sstep c) ops ss) ->
+  Sim c st ss -> Forall (op_ok c) ops ->
   spec_from c ss ops (run_print_from c st ops) = [].
 Proof.
-  intros c. induction ops as [|o ops IH]; intros st ss HS Hok Hno; [reflexivity|].
+  intros c. induction ops as [|o ops IH]; intros st ss HS Hok; [reflexivity|].
   inversion Hok as [|? ? Ho Hoks]; subst.
   assert (Hcases : (exists r, o = OCollect r) \/ (forall r, o <> OCollect r)).
   { destruct o; try (right; intros r' Heq; discriminate). left. now exists r. }
   destruct Hcases as [[r ->]|Hnc].
-  - assert (Hno1 : no_f27 c (sobserve c ss)).
-    { intros i Hki. destruct (p_multi (sobserve c ss) i) eqn:E; [|reflexivity].
-      rewrite <- (Hno i Hki). cbn [fold_left]. symmetry. apply multi_sticky. cbn [sstep sgiven p_multi]. exact E. }
-    destruct (sim_collect c st ss r HS Ho Hno1) as (x & Hx & HS1 & Hchk).
+  - destruct (sim_collect c st ss r HS Ho) as (x & Hx & HS1 & Hchk).
     unfold run_print_from. cbn [run_from collects_of flat_map app].
     destruct (step c st (OCollect r)) as [st1 out] eqn:Est. cbn [fst snd] in Hx, HS1. subst out.
     destruct (run_from c st1 ops) as [st2 outs] eqn:Erun. cbn [snd combine map fst spec_from].
-    rewrite Hchk. cbn [app]. specialize (IH st1 _ HS1 Hoks Hno). unfold run_print_from in IH. rewrite Erun in IH. exact IH.
+    rewrite Hchk. cbn [app]. specialize (IH st1 _ HS1 Hoks). unfold run_print_from in IH. rewrite Erun in IH. exact IH.
   - destruct (sim_step_other c st ss o HS Ho Hnc) as [HS1 Hout].
     unfold run_print_from. cbn [run_from].
     destruct (step c st o) as [st1 out] eqn:Est. cbn [fst snd] in HS1, Hout. subst out.
     destruct (run_from c st1 ops) as [st2 outs] eqn:Erun. cbn [snd].
     assert (Hcol : collects_of (o :: ops) = collects_of ops).
     { unfold collects_of. cbn [flat_map]. destruct o; try reflexivity. exfalso. now apply (Hnc r). }
-    rewrite Hcol. specialize (IH st1 _ HS1 Hoks Hno). unfold run_print_from in IH. rewrite Erun in IH.
+    rewrite Hcol. specialize (IH st1 _ HS1 Hoks). unfold run_print_from in IH. rewrite Erun in IH.
     destruct o; try exact IH. exfalso. now apply (Hnc r).
 Qed.
 
-(* the SPEC checker accepts the model's output on every history the case parser accepts, outside the region of finding F27 *)
+(* the SPEC checker accepts the model's output on every history the case parser accepts *)
 Theorem model_meets_spec_obs : forall c ops,
-  Forall (op_ok c) ops -> no_f27 c (final_sstate c ops) -> spec_obs c ops (run_print c ops) = [].
+  Forall (op_ok c) ops -> spec_obs c ops (run_print c ops) = [].
 Proof.
-  intros c ops Hok Hno. unfold spec_obs, run_print, run. apply (spec_from_ok c ops init sinit (sim_init c) Hok Hno).
+  intros c ops Hok. unfold spec_obs, run_print, run. apply (spec_from_ok c ops init sinit (sim_init c) Hok).
 Qed.
 
 (* non-vacuity: a history with two readers, a counter and a gauge, registration, removal and re-registration *)
@@ -337,7 +318,7 @@ Example meets_example :
   let c := mk_cfg true [0; 1] [0; 2; 6] in
   let ops := [OAdd 0 0 0; OAdd 1 1 1; OSet 0 0 10; OSet 1 2 (-4); OCollect 0; OCollect 1; ORec 2 1 5; OSet 0 0 7; OCollect 1; ORem 0 0 0;
               OStep 3; OCollect 0; OCollect 1] in
-  Forall (op_ok c) ops /\ no_f27 c (final_sstate c ops) /\
+  Forall (op_ok c) ops /\
   map cp_instr (run_print c ops) =
     [[Some (0, [(0, PSum 10 true)]); Some (0, [(2, PLast (-4) true)]); None];
      [Some (1, [(0, PSum 10 true)]); Some (1, [(2, PLast (-4) true)]); None];
@@ -345,17 +326,19 @@ Example meets_example :
      [Some (0, [(0, PSum (-3) true)]); Some (0, [(2, PLast (-4) true)]); Some (0, [(1, PLast 5 true)])];
      [Some (1, [(0, PSum 7 true)]); Some (1, [(2, PLast (-4) true)]); Some (1, [(1, PLast 5 true)])]].
 Proof.
-  cbn zeta. split; [|split].
+  cbn zeta. split.
   - repeat constructor; cbn; tauto.
-  - intros i _. destruct i as [|[|[|i]]]; vm_compute; reflexivity.
   - vm_compute. reflexivity.
 Qed.
 
-(* F27: with the same callback registered twice the model (as the code) hands the cumulative reader 0 instead of the total 10 *)
-Definition f27_cfg : cfg := mk_cfg false [1] [0].
-Definition f27_ops : list op := [OAdd 0 0 0; OAdd 0 0 0; OSet 0 0 10; OCollect 0].
-Lemma model_meets_spec_refuted_lemma :
+(* regression for finding F27 (fixed in 93457c3): with the same callback registered twice the cumulative reader is given the
+   reported total 10 (it was 0), and two callbacks reporting different totals for one attribute set: the last report counts *)
+Definition f27_cfg : cfg := mk_cfg false [1; 0] [0].
+Definition f27_ops : list op := [OAdd 0 0 0; OAdd 0 0 0; OSet 0 0 10; OCollect 0; OCollect 1].
+Definition f27b_ops : list op := [OAdd 0 0 0; OAdd 0 1 2; OSet 0 0 10; OSet 2 0 12; OCollect 0; OSet 0 0 20; OSet 2 0 15; OCollect 1; OCollect 0].
+Lemma repeated_report_lemma :
   Forall (op_ok f27_cfg) f27_ops /\
-  map cp_instr (run_print f27_cfg f27_ops) = [[Some (1, [(0, PSum 0 true)])]] /\
-  spec_obs f27_cfg f27_ops (run_print f27_cfg f27_ops) = fail "cumulative_reader_gets_reported_total:multi_observation".
+  map cp_instr (run_print f27_cfg f27_ops) = [[Some (1, [(0, PSum 10 true)])]; [Some (0, [(0, PSum 10 true)])]] /\
+  map cp_instr (run_print f27_cfg f27b_ops) =
+    [[Some (1, [(0, PSum 12 true)])]; [Some (0, [(0, PSum 15 true)])]; [Some (1, [(0, PSum 15 true)])]].
 Proof. split; [repeat constructor; cbn; tauto|]. split; vm_compute; reflexivity. Qed.
